@@ -1191,7 +1191,8 @@ fn _block_comment(
     end_offset: Option<usize>,
 ) -> OffsetAndTokenType {
     if let Some(end_offset) = end_offset {
-        let nl_before = input.as_bytes()[..offset].contains(&b'\n') || lex_state.is_first;
+        let nl_before = memchr::memchr2(b'\n', b'\r', &input.as_bytes()[..offset]).is_some()
+            || lex_state.is_first;
         let nl_inside = memchr::memchr(b'\n', &input.as_bytes()[offset..end_offset]).is_some();
         let comment_kind = block_comment_kind(nl_before, nl_inside);
         (end_offset, TT::Comment(comment_kind))
@@ -1218,7 +1219,7 @@ fn line_comment(
         lex_state,
     }: LexArgs,
 ) -> OffsetAndTokenType {
-    let kind = if input[..offset].contains('\n') || lex_state.is_first {
+    let kind = if input[..offset].contains(['\n', '\r']) || lex_state.is_first {
         CommentKind::IndividualLine
     } else {
         CommentKind::InlineLine
